@@ -11,6 +11,8 @@ pub enum Op {
     /// slot selector (mapped monotonically onto 0..m), value
     Update(u16, F),
     Reset,
+    /// every slot is offered the value, in ascending (true) or descending slot order
+    Fill(F, bool),
 }
 
 #[derive(Clone, Debug, Serialize, Deserialize)]
@@ -42,6 +44,12 @@ fn m_strategy(max_m: usize) -> impl Strategy<Value = usize> {
     ]
 }
 
+/// large trackers (tree depth above 16) driven mostly by whole-array fills, so that the maximum actually moves
+fn big_strategy() -> impl Strategy<Value = Case> {
+    (prop::sample::select(vec![32_767usize, 32_768, 32_769, 40_000, 65_535, 65_536, 65_537, 100_003]), prop::collection::vec(prop_oneof![3 => (value_strategy(), any::<bool>()).prop_map(|(v, a)| Op::Fill(v, a)), 2 => (any::<u16>(), value_strategy()).prop_map(|(s, v)| Op::Update(s, v)), 1 => Just(Op::Reset)], 1..7))
+        .prop_map(|(m, ops)| Case { m, ops })
+}
+
 fn strategy(max_m: usize, max_ops: usize) -> impl Strategy<Value = Case> {
     (m_strategy(max_m), prop::collection::vec(prop_oneof![30 => (any::<u16>(), value_strategy()).prop_map(|(s, v)| Op::Update(s, v)), 1 => Just(Op::Reset)], 0..max_ops))
         .prop_map(|(m, ops)| Case { m, ops })
@@ -63,7 +71,7 @@ pub fn eval(c: &Case) -> Eval {
             ensure!(got == model[k], "step {}: get_value({}) = {:e}, smallest value offered to that slot is {:e}", step, k, got, model[k]);
         }
         let got = t.get_max_value();
-        ensure!(got == mx, "step {}: get_max_value() = {:e}, true maximum of slot values is {:e} (slots {:?})", step, got, mx, model);
+        ensure!(got == mx, "step {}: get_max_value() = {:e}, true maximum of slot values is {:e} (m = {}, first slots {:?})", step, got, mx, m, &model[..m.min(8)]);
         let mut probes = vec![mx, next_down(mx), 0.0, -1.0];
         if mx < f64::MAX {
             probes.push(next_up(mx));
@@ -102,6 +110,18 @@ pub fn eval(c: &Case) -> Eval {
                 model.fill(f64::MAX);
                 t.reset();
             }
+            Op::Fill(v, asc) => {
+                let v = v.0;
+                for i in 0..m {
+                    let k = if *asc { i } else { m - 1 - i };
+                    if v < model[k] {
+                        improving += 1;
+                        model[k] = v;
+                    }
+                    t.update(k, v);
+                }
+                dirty = true;
+            }
         }
         check(&t, &model, i + 1)?;
     }
@@ -119,11 +139,13 @@ pub fn run(ctx: &Ctx) {
     ctx.set_rule("histories of Update(slot,value)/Reset over trackers with 1..=70 (quick) or 1..=300 (thorough) slots generated by proptest; values from a pool of 6 (forces ties \
         and equal siblings) mixed with random finite doubles, subnormals, negatives and f64::MAX; after every step the tracker is compared with a model vector of minima \
         (get_value for every slot, get_max_value, is_update_possible on the maximum, its neighbours and the pool). Non-trivial = at least 2 improving updates on a tracker with >= 2 slots; \
-        distinct = distinct serialised history.");
+        distinct = distinct serialised history. A second generator uses trackers of 32 767 .. 100 003 slots driven by whole-array fills (ascending / descending), single updates and resets.");
     ctx.assume("NaN is never offered (the tracker requires PartialOrd values; all callers pass positive race values)");
     super::run_fixed_tier(ctx, replay);
     let (cases, max_m, max_ops) = ctx.tier.pick((300_000, 70, 400), (1_500_000, 300, 1200));
     ctx.drive("history", cases, 16, 20000, || strategy(max_m, max_ops), eval);
+    let cases = ctx.tier.pick(160, 3200);
+    ctx.drive("big-trackers", cases, 16, 60, big_strategy, eval);
 }
 
 pub fn replay(ctx: &Ctx, sub: &str, case: &Value) -> Result<(), String> {
